@@ -4,12 +4,18 @@
 // visitors, view<K> for all 159 leaf categories K}.
 #include <set>
 
+#include <functional>
+#include <set>
+
 #include "zoo/zoo.hpp"
 
 namespace {
    vf::Report rep;
    vf::Options opt;
    bool verbose = false;
+   std::set<int> leaves_seen;
+   std::set<std::string> classes_seen;
+   std::function<void(bool)> second_lexicon;
 
    void run()
    {
@@ -19,8 +25,7 @@ namespace {
       Ctx c{ lex, unit };
       c.prop = "";               // the table's own C02/C09 oracles are not this property's business
       build_all(c);
-      std::set<int> leaves_seen;
-      std::set<std::string> classes_seen;
+      auto examine = [](Ctx& c, const std::string& phase) {
       // every node is examined as built; classic expressions a second time with their `implementation()` link set to a
       // declaration (dispatch must not depend on it)
       std::vector<std::pair<std::size_t, int>> work;
@@ -34,7 +39,7 @@ namespace {
          const ipr::Node& n = *e.node;
          const std::string expected = leaf_name[e.leaf];
          auto fail = [&](const std::string& key, const std::string& what) {
-            rep.violation("C06:" + key, (long long) idx, what + " [node built by " + e.row + ", documented interface " + expected + (with_impl ? ", implementation() set to a declaration" : "") + "]",
+            rep.violation("C06:" + key, (long long) idx, what + " [node built by " + e.row + ", documented interface " + expected + (with_impl ? ", implementation() set to a declaration" : "") + phase + "]",
                           vf::JObj{}.str("pass", "C06").raw("ops", vf::jarr(std::vector<long long>{ (long long) idx })).str("row", e.row).done());
             if (verbose) std::printf("  VIOLATION C06:%s: %s [%s]\n", key.c_str(), what.c_str(), e.row.c_str());
          };
@@ -71,7 +76,55 @@ namespace {
          rep.member("outcomes", expected + "/" + sink_name[e.sink]);
       }
       rep.count("traces");
+      };
+      examine(c, "");
+      // 300 visits of every node by a visitor whose hooks all refuse (as the library's own Missing_overrider visitors do):
+      // afterwards dispatch and default forwarding are what they were
+      {
+         struct Refuser : SinkOnly {
+            using SinkOnly::visit;
+            void visit(const ipr::Node&) override { throw std::logic_error("refused"); }
+            void visit(const ipr::Expr&) override { throw std::logic_error("refused"); }
+            void visit(const ipr::Name&) override { throw std::logic_error("refused"); }
+            void visit(const ipr::Type&) override { throw std::logic_error("refused"); }
+            void visit(const ipr::Directive&) override { throw std::logic_error("refused"); }
+            void visit(const ipr::Stmt&) override { throw std::logic_error("refused"); }
+            void visit(const ipr::Decl&) override { throw std::logic_error("refused"); }
+         };
+         for (auto& e : c.entries) {
+            if (e.node == nullptr) continue;
+            for (int k = 0; k < 300; ++k) { Refuser r; try { e.node->accept(r); } catch (const std::logic_error&) { } rep.count("transitions"); }
+         }
+         examine(c, ", after 300 refused visits of every node");
+      }
       rep.count("distinct_nontrivial", (long long) classes_seen.size());
+      second_lexicon = [examine](bool) mutable {
+         // (runs after the first Lexicon, its unit and the context are gone) small nodes of several classes first, so that
+         // storage released by the first Lexicon is in use again, then a unit and the constants / internals once more
+         ipr::impl::Lexicon lex2;
+         for (int i = 0; i < 400; ++i) {
+            auto& t = lex2.get_pointer(i % 2 ? lex2.int_type() : lex2.char_type());
+            (void) lex2.get_ctor_name(t); (void) lex2.get_dtor_name(t); (void) lex2.get_conversion(lex2.get_pointer(t)); (void) lex2.get_reference(t);
+            (void) lex2.make_phantom(); (void) lex2.get_operator(std::u8string(1, char8_t('!' + i % 60)));
+         }
+         ipr::impl::Translation_unit unit2{ lex2 };
+         ipr::impl::Module mod{ lex2 };
+         zoo::Ctx c2{ lex2, unit2 };
+         c2.prop = "";
+         c2.current_row = "second-lexicon";
+         zoo::register_constants_and_internals(c2);
+         auto name_entry = [&](const ipr::Translation_unit& u, const char* what) {
+            const ipr::Name& nm = u.global_namespace().name();
+            if (auto id = ipr::util::view<ipr::Identifier>(nm)) c2.node<ipr::Identifier>(*id, what, false);
+            else rep.violation("C06:interface:Identifier", 0, std::string("the name of the global namespace of a unit of a second Lexicon (") + what + ") is not an Identifier: category " + std::to_string(int(nm.category)),
+                               vf::JObj{}.str("pass", "C06").raw("ops", "[]").str("row", what).done());
+            c2.node<ipr::Namespace>(u.global_namespace(), what, false);
+         };
+         name_entry(unit2, ":global-namespace-of-translation-unit");
+         name_entry(mod.iface, ":global-namespace-of-interface-unit");
+         name_entry(*mod.make_unit(), ":global-namespace-of-module-unit");
+         examine(c2, ", on a second Lexicon created after the first one was destroyed");
+      };
       std::vector<std::string> missing;
       for (int k = 0; k < NLEAVES; ++k) if (not leaves_seen.count(k)) missing.push_back(vf::jstr(leaf_name[k]));
       rep.info("coverage", vf::JObj{}.num("leaf_categories", NLEAVES).num("leaf_categories_with_an_instance", (long long) leaves_seen.size())
@@ -88,6 +141,7 @@ int main(int argc, char** argv)
    verbose = not opt.replay.empty();
    if (verbose) std::printf("replay C06: the whole (finite) configuration space is re-run\n");
    run();
+   second_lexicon(true);
    if (verbose) {
       for (auto& [k, v] : rep.viols) std::printf("violated: %s  (%s)\n", k.c_str(), v.what.c_str());
       return rep.viols.empty() ? 0 : 1;
